@@ -11,7 +11,7 @@ from props import c01 as _c01
 
 ID = 'C17'
 LEVEL = 'exploration'
-RULE = ('Seeded histories of 1..60 set/get/get_value calls on Segment objects (ISA and non-ISA, all delimiter settings) with '
+RULE = ('Seeded histories of 1..60 set/get/get_value calls interleaved over 1..3 Segment objects (ISA and non-ISA, all delimiter settings) with '
         'designators NN, NN-N, SEGNN, SEGNN-N, foreign segment ids, indexes beyond the end, compared call by call with a '
         'list-of-lists model; plus, per run, 30 paths drawn from the documented path grammar (absolute/relative, 0..4 loop '
         'ids, segment id, qualifier, element 01..99, component 1..99, bare designators, and the two rejected shapes) checked '
@@ -131,34 +131,54 @@ def map_paths(rng, n):
     return out
 
 
-def generate(rng, tier, run, seed=0):
-    seg_term, ele_term, sub_term = rng.choice([('~', '*', ':'), ('~', '*', ':'), ('\n', '|', '>'), ('!', '^', '\\'), ('+', ',', '<')])
-    is_isa = rng.random() < 0.15
+def gen_segment(rng, ele_term, sub_term, used):
+    is_isa = rng.random() < 0.15 and 'ISA' not in used
     if is_isa:
         sid = 'ISA'
         els = ['00', ' ' * 10, '00', ' ' * 10, 'ZZ', 'S'.ljust(15), 'ZZ', 'R'.ljust(15), '040102', '1230', 'U', '00401',
                '000000001', '0', 'P', sub_term]
     else:
-        sid = rng.choice(SEGIDS[:10])
+        sid = rng.choice([x for x in SEGIDS[:10] if x not in used] or SEGIDS[:10])
         els = []
         for _ in range(rng.choice([0, 1, 2, 4, 7])):
             if rng.random() < 0.25:
                 els.append(sub_term.join(gen_value(rng) for _ in range(rng.choice([2, 3]))))
             else:
                 els.append(gen_value(rng))
-    init = sid + ''.join(ele_term + e for e in els)
+    return sid, sid + ''.join(ele_term + e for e in els)
+
+
+def generate(rng, tier, run, seed=0):
+    seg_term, ele_term, sub_term = rng.choice([('~', '*', ':'), ('~', '*', ':'), ('\n', '|', '>'), ('!', '^', '\\'), ('+', ',', '<')])
+    nseg = rng.choice([1, 1, 2, 3])
+    sids, inits = [], []
+    for _ in range(nseg):
+        sid, init = gen_segment(rng, ele_term, sub_term, sids)
+        sids.append(sid)
+        inits.append(init)
     ops = []
     for _ in range(rng.choice([1, 3, 8, 20, 40, 60])):
+        k = rng.randrange(nseg)          # the scheduler: which segment object is operated on next
+        sid = sids[k]
         op = rng.choice(['set', 'set', 'get_value', 'get_value', 'get'])
         ele = rng.choice([1, 1, 2, 3, 4, 5, 8, 12, 17, 25])
-        comp = rng.choice([None, None, None, 1, 2, 3, 6]) if not is_isa else None
+        comp = rng.choice([None, None, None, 1, 2, 3, 6])
+        if sid == 'ISA' and (ele == 16 or rng.random() < 0.6):
+            comp = None
         r = rng.random()
-        prefix = '' if r < 0.45 else (sid if r < 0.85 else rng.choice([s for s in SEGIDS if s != sid]))
+        others = [x for x in sids if x != sid]
+        if r < 0.45:
+            prefix = ''
+        elif r < 0.8:
+            prefix = sid
+        else:
+            # a designator naming another segment - preferably one that *is* legitimately used on another object of this history
+            prefix = rng.choice(others) if others and rng.random() < 0.7 else rng.choice([x for x in SEGIDS if x != sid])
         refdes = '%s%02d' % (prefix, ele) + ('-%d' % comp if comp else '')
-        ops.append([op, refdes, gen_value(rng) if op == 'set' else None])
+        ops.append([k, op, refdes, gen_value(rng) if op == 'set' else None])
     paths = [list(gen_path(rng)) for _ in range(30)]
     paths += map_paths(rng, 12 if tier == 'quick' else 40)
-    return {'init': init, 'delims': [seg_term, ele_term, sub_term], 'ops': ops, 'paths': paths}
+    return {'segs': inits, 'delims': [seg_term, ele_term, sub_term], 'ops': ops, 'paths': paths}
 
 
 # ------------------------------------------------------------------ model
@@ -168,10 +188,13 @@ class SegModel(object):
         parts = text.split(ele_term)
         self.id = parts[0]
         self.sub = sub_term
+        self.ele_term = ele_term
         if self.id == 'ISA':
             self.els = [[p] for p in parts[1:]]
+            self.join = [ele_term] * len(self.els)     # ISA elements are never split; their own "component" joiner is the element separator
         else:
             self.els = [p.split(sub_term) for p in parts[1:]]
+            self.join = [sub_term] * len(self.els)
 
     @staticmethod
     def parse(refdes):
@@ -191,7 +214,7 @@ class SegModel(object):
             t = list(comps)
             while len(t) > 1 and t[-1] == '':
                 t.pop()
-            return self.sub.join(t)
+            return self.join[e - 1].join(t)
         if c > len(comps):
             return None
         return comps[c - 1]
@@ -203,9 +226,14 @@ class SegModel(object):
         pad = 0
         while len(self.els) < e:
             self.els.append([''])
+            self.join.append(self.sub)
             pad += 1
-        if c is None:
+        if self.id == 'ISA' and e == 16:
+            self.els[e - 1] = [val]          # ISA16 is always written whole
+            self.join[e - 1] = self.ele_term
+        elif c is None:
             self.els[e - 1] = [val]
+            self.join[e - 1] = self.sub
         else:
             while len(self.els[e - 1]) < c:
                 self.els[e - 1].append('')
@@ -228,15 +256,22 @@ def execute(case):
     seg_term, ele_term, sub_term = case['delims']
     evals = 0
     try:
-        seg = pyx12.segment.Segment(case['init'] + seg_term, seg_term, ele_term, sub_term)
-        model = SegModel(case['init'], ele_term, sub_term)
-        if seg_state(seg) != model.els or seg.get_seg_id() != model.id:
-            out.violate('init', 'init-mismatch', 'Segment(%r) parsed as %r, model %r' % (case['init'], seg_state(seg), model.els))
-        for n, (op, refdes, val) in enumerate(case['ops']):
+        inits = case.get('segs') or [case['init']]
+        segs = [pyx12.segment.Segment(t + seg_term, seg_term, ele_term, sub_term) for t in inits]
+        models = [SegModel(t, ele_term, sub_term) for t in inits]
+        for seg, model, t in zip(segs, models, inits):
+            if seg_state(seg) != model.els or seg.get_seg_id() != model.id:
+                out.violate('init', 'init-mismatch', 'Segment(%r) parsed as %r, model %r' % (t, seg_state(seg), model.els))
+        for n, rec in enumerate(case['ops']):
+            if len(rec) == 4:
+                k, op, refdes, val = rec
+            else:
+                k, (op, refdes, val) = 0, rec
+            seg, model = segs[k], models[k]
             evals += 1
             log.ev('op', op, refdes)
             before = [list(c) for c in model.els]
-            shape = ('SEG' if refdes[:1].isalpha() else '') + 'NN' + ('-N' if '-' in refdes else '')
+            shape = ('ISA:' if model.id == 'ISA' else '') + ('SEG' if refdes[:1].isalpha() else '') + 'NN' + ('-N' if '-' in refdes else '')
             if op == 'set':
                 want = model.set(refdes, val)
                 try:
@@ -247,6 +282,9 @@ def execute(case):
                 if (want == 'REFUSED') != (got == 'REFUSED'):
                     out.violate('set', 'set-refusal|%s' % shape, 'op %d set(%r): %s, model says %s' % (n, refdes, got, want))
                     break
+                for j2, (s2, m2) in enumerate(zip(segs, models)):
+                    if j2 != k and seg_state(s2) != m2.els:
+                        out.violate('set', 'set-leaks-to-other-segment', 'op %d set(%r) on segment %d changed segment %d' % (n, refdes, k, j2))
                 if seg_state(seg) != model.els:
                     out.violate('set', 'set-state|%s' % shape, 'op %d set(%r,%r): state %r, model %r (before %r)' % (
                         n, refdes, val, seg_state(seg), model.els, before))
@@ -334,4 +372,4 @@ def shrink(case, still):
 
 
 def sample_view(case, out):
-    return {'segment': case['init'], 'delims': case['delims'], 'ops': case['ops'][:10], 'paths': [p[0] for p in case['paths'][:10]]}
+    return {'segments': case.get('segs'), 'delims': case['delims'], 'ops': case['ops'][:10], 'paths': [p[0] for p in case['paths'][:10]]}
